@@ -5,7 +5,7 @@ from ..vlib import Report, Inconclusive
 
 PROPS = ["C02"]
 DRIVER = "oauth"
-UNIT = 5.0          # seconds per Tick of the model (s2sMaxPresentationValidity = s2sMaxClockSkew = 5 s)
+UNIT = 6.0          # seconds per Tick of the model: validity 5 s, skew 5 s, nonce kept 10 s => every comparison has >= 1.5 s margin (driver: rtOffset)
 TOKEN_TTL = 2       # Age units per token lifetime (must equal TokenTTL of the cfgs)
 
 # standard members of an RFC 7662 answer (+ cnf); the members the node really answers with are discovered at run time
@@ -97,7 +97,9 @@ def concretise(beh, rnd, family, idx):
             st["vcfmt"] = rnd.choice(["ldp", "jwt"])
             st["var"] = {f: rnd.randrange(6) for f in st.get("d", [])}
             st["var"]["issuer"] = rnd.randrange(2)
-            st["pd2"] = bool(pd2 and st.get("def", "plain") == "plain" and "partial" not in st.get("d", []))
+            st["pd2"] = bool(pd2 and st.get("def", "plain") == "plain" and "partial" not in st.get("d", [])) if family not in ("code", "code2") else pd2
+        if st["a"] == "Authorize":
+            st["pd2"] = pd2     # the scope is fixed by the authorization request
         if st["a"] == "CodeToken":
             st["var"] = {f: rnd.randrange(6) for f in st.get("d", [])}
         steps.append(st)
@@ -182,7 +184,8 @@ def _t(label, t0):
 def run(prop, tier, seed, replay=None):
     t0 = time.time()
     rep = Report(prop)
-    binary = vlib.build_driver(DRIVER)
+    # (VERIF_OAUTH_BINARY: a driver built against a scratch copy of the repository - used for the binding demonstration only)
+    binary = os.environ.get("VERIF_OAUTH_BINARY") or vlib.build_driver(DRIVER)
     if replay:
         obj = json.load(open(replay))
         res = vlib.run_driver(binary, obj["input"], timeout=300)
@@ -208,13 +211,32 @@ def run(prop, tier, seed, replay=None):
     from concurrent.futures import ThreadPoolExecutor
     checks = ["OAuth.s2s.quick.cfg", "OAuth.s2s.pairs.quick.cfg", "OAuth.win.check.cfg", "OAuth.code.quick.cfg", "OAuth.ovr.check.cfg"] if quick else \
              ["OAuth.s2s.thorough.cfg", "OAuth.win.check.cfg", "OAuth.code.thorough.cfg", "OAuth.ovr.check.cfg"]
-    gens = ["OAuth.s2s.gen.pairs.cfg", "OAuth.win.gen.cfg", "OAuth.code.gen.cfg", "OAuth.code.gen.pairs.cfg", "OAuth.ovr.gen.cfg"]
+    gens = ["OAuth.win.gen.cfg", "OAuth.s2s.gen.pairs.cfg", "OAuth.code.gen.cfg", "OAuth.code.gen.pairs.cfg", "OAuth.ovr.gen.cfg"]
     if not quick:
         gens.append("OAuth.s2s.gen.seq.cfg")
-    with ThreadPoolExecutor(max_workers=3 if quick else 2) as ex:
+    n = dict(pairs_single=10 ** 6, pairs=220, seq=260, win=36, code=160, codepairs=120, ovr=10 ** 6) if quick else \
+        dict(pairs_single=10 ** 6, pairs=10 ** 6, seq=5000, win=260, code=10 ** 6, codepairs=10 ** 6, ovr=10 ** 6)
+    fam, scripts = {}, []
+
+    def add_family(f, bs):
+        fam[f] = bs
+        out = [concretise(b, random.Random("%s/%s" % (seed, f + str(i))), f, i) for i, b in enumerate(bs)]
+        scripts.extend(out)
+        return out
+
+    ex = ThreadPoolExecutor(max_workers=4)
+    drv = ThreadPoolExecutor(max_workers=2)
+    try:
+        fg = {g: ex.submit(gen_exhaustive, g, 2) for g in gens[:1]}
         fc = {c: ex.submit(check_model, c, 2 if quick else 4, not quick) for c in checks}
-        fg = {g: ex.submit(gen_exhaustive, g, 2) for g in gens}
+        fg.update({g: ex.submit(gen_exhaustive, g, 2) for g in gens[1:]})
         fs = ex.submit(gen_simulate, "OAuth.s2s.gen.seq.cfg", 400, 5, seed) if quick else None
+        behaviours = {}
+        # the real-time scripts sleep most of the time: they start as soon as their behaviours exist
+        behaviours["OAuth.win.gen.cfg"] = fg["OAuth.win.gen.cfg"].result()[1]
+        rt = add_family("win", pick([b for b in behaviours["OAuth.win.gen.cfg"] if any(s["a"] == "S2SReplay" for s in b)], n["win"], rnd,
+                                    must=interesting_window))
+        f_rt = drv.submit(vlib.run_driver_parallel, binary, driver_input(rt, all_members), "scripts", max(1, min(4, len(rt) // 40 + 1)), timeout=400)
         models, cover = [], {}
         states = transitions = 0
         for c in checks:
@@ -224,55 +246,49 @@ def run(prop, tier, seed, replay=None):
             models.append(dict(cfg=c, states=m.distinct, transitions=m.generated, depth=m.depth, wall_s=round(m.wall, 1)))
             for k, v in m.coverage.items():
                 cover[k] = cover.get(k, 0) + v
-        behaviours = {g: fg[g].result()[1] for g in gens}
+        for g in gens[1:]:
+            behaviours[g] = fg[g].result()[1]
         if fs is not None:
             behaviours["OAuth.s2s.gen.seq.cfg"] = fs.result()[1]
-    if not quick:
-        dead = [a for a in ("S2SDo", "S2SReplayDo", "Authorize", "AuthzDo", "CodeDo", "IntrospectDo", "Tick", "Age") if cover.get(a, 0) == 0]
-        if dead:
-            raise Inconclusive("vacuity: actions never fired in the model runs: %s (%s)" % (dead, cover))
+        if not quick:
+            dead = [a for a in ("S2SDo", "S2SReplayDo", "Authorize", "AuthzDo", "CodeDo", "IntrospectDo", "Tick", "Age") if cover.get(a, 0) == 0]
+            if dead:
+                raise Inconclusive("vacuity: actions never fired in the model runs: %s (%s)" % (dead, cover))
+        _t("tlc", t0)
 
-    _t("tlc", t0)
-    # ---- 2. selection (seeded) and concretisation
-    n = dict(pairs_single=10 ** 6, pairs=220, seq=260, win=36, code=160, codepairs=120, ovr=10 ** 6) if quick else \
-        dict(pairs_single=10 ** 6, pairs=10 ** 6, seq=5000, win=260, code=10 ** 6, codepairs=10 ** 6, ovr=10 ** 6)
-    fam = {}
-    pb = behaviours["OAuth.s2s.gen.pairs.cfg"]
-    singles = [b for b in pb if all(len(s.get("d", [])) <= 1 for s in b)]
-    pairs = [b for b in pb if any(len(s.get("d", [])) > 1 for s in b)]
-    fam["s2s1"] = pick(singles, n["pairs_single"], rnd)
-    fam["s2s2"] = pick(pairs, n["pairs"], rnd)
-    fam["seq"] = pick(behaviours["OAuth.s2s.gen.seq.cfg"], n["seq"], rnd)
-    fam["win"] = pick([b for b in behaviours["OAuth.win.gen.cfg"] if any(s["a"] == "S2SReplay" for s in b)], n["win"], rnd, must=interesting_window)
-    fam["code"] = pick(behaviours["OAuth.code.gen.cfg"], n["code"], rnd, must=lambda b: any(s["a"] == "Introspect" and s.get("res") == "active" for s in b))
-    fam["code2"] = pick(behaviours["OAuth.code.gen.pairs.cfg"], n["codepairs"], rnd)
-    ovr = [b for b in behaviours["OAuth.ovr.gen.cfg"] if len(b) > 1 and b[0]["a"] == "S2SToken" and all(s["a"] == "Introspect" for s in b[1:])]
-    # every variant is introspected through both endpoints
-    ovr2 = []
-    for b in ovr:
-        ovr2.append(b)
-    for m in new_members:   # members the cfg does not know: same behaviours as for an unguarded name
-        for b in ovr:
-            if b[0].get("def") == "aud":
-                ovr2.append([dict(s, **({"def": m} if s["a"] == "S2SToken" else {})) for s in b])
-    fam["ovr"] = pick(ovr2, n["ovr"], rnd)
-    scripts, nowin = [], []
-    for f, bs in fam.items():
-        for i, b in enumerate(bs):
-            sc = concretise(b, rnd, f, i)
-            scripts.append(sc)
-    by_id = {s["id"]: s for s in scripts}
+        # ---- 2. selection (seeded) and concretisation
+        pb = behaviours["OAuth.s2s.gen.pairs.cfg"]
+        add_family("s2s1", pick([b for b in pb if all(len(s.get("d", [])) <= 1 for s in b)], n["pairs_single"], rnd))
+        add_family("s2s2", pick([b for b in pb if any(len(s.get("d", [])) > 1 for s in b)], n["pairs"], rnd))
+        add_family("seq", pick(behaviours["OAuth.s2s.gen.seq.cfg"], n["seq"], rnd))
+        add_family("code", pick(behaviours["OAuth.code.gen.cfg"], n["code"], rnd,
+                                must=lambda b: any(s["a"] == "Introspect" and s.get("res") == "active" for s in b)))
+        add_family("code2", pick(behaviours["OAuth.code.gen.pairs.cfg"], n["codepairs"], rnd))
+        # (the generation run prints one behaviour per state; only "one token request, then introspections" is wanted here)
+        ovr = vlib.dedupe_maximal([b for b in fg["OAuth.ovr.gen.cfg"].result()[0].printed
+                                   if len(b) > 1 and b[0]["a"] == "S2SToken" and all(s["a"] == "Introspect" and s["t"] != "bogus" for s in b[1:])])
+        for m in new_members:   # members the cfg does not know: same behaviours as for an unguarded name
+            ovr += [[dict(s, **({"def": m} if s["a"] == "S2SToken" else {})) for s in b] for b in ovr if b[0].get("def") == "aud"]
+        add_family("ovr", pick(ovr, n["ovr"], rnd))
+        by_id = {s["id"]: s for s in scripts}
 
-    # ---- 3. replay on the real node (real-time scripts in one process of their own)
-    rt = [s for s in scripts if s["realtime"]]
-    other = [s for s in scripts if not s["realtime"]]
-    results = []
-    with ThreadPoolExecutor(max_workers=2) as ex:
-        f_rt = ex.submit(vlib.run_driver_parallel, binary, driver_input(rt, all_members), "scripts", max(1, min(4, len(rt) // 40 + 1)), timeout=400) if rt else None
-        f_ot = ex.submit(vlib.run_driver_parallel, binary, driver_input(other, all_members), "scripts", 4 if quick else 6, timeout=500)
-        results = f_ot.result() + (f_rt.result() if f_rt else [])
-
+        # ---- 3. replay on the real node
+        other = [s for s in scripts if not s["realtime"]]
+        results = vlib.run_driver_parallel(binary, driver_input(other, all_members), "scripts", 4 if quick else 6, timeout=500)
+        rt_res = f_rt.result()
+        # real-time scripts that missed their schedule (loaded machine) are run once more, alone
+        late = [by_id[r["id"]] for r in rt_res if r.get("skipped")]
+        if late:
+            again = {r["id"]: r for r in vlib.run_driver(binary, driver_input(late, all_members), timeout=400)}
+            rt_res = [again.get(r["id"], r) if r.get("skipped") else r for r in rt_res]
+        skipped = [r for r in rt_res if r.get("skipped")]
+        results += [r for r in rt_res if not r.get("skipped")]
+    finally:
+        ex.shutdown(wait=False)
+        drv.shutdown(wait=False)
     _t("driver", t0)
+    if os.environ.get("VERIF_DUMP"):
+        json.dump(dict(results=results, scripts=scripts), open(os.environ["VERIF_DUMP"], "w"))
     # ---- 4. verdicts from the real observables
     nchecks = ndrift = nerr = clean_ok = clean_fail = 0
     samples, fam_clean = [], {}
@@ -298,9 +314,15 @@ def run(prop, tier, seed, replay=None):
         if len(samples) < 3 and len(sc["steps"]) >= 3 and r.get("observed") and not r["violations"] and f in ("seq", "code", "win"):
             samples.append(dict(script=sc["steps"], observed=r["observed"][:6]))
     if nerr <= max(2, len(results) // 50):
+        for msg in rep.inconclusive[:3]:
+            rep.notes.append("NOTE: tolerated harness error, " + msg[:300])
         rep.inconclusive = []
-    if len(results) != len(scripts):
-        rep.inconclusive.append("%d of %d scripts produced no result" % (len(scripts) - len(results), len(scripts)))
+    if len(results) + len(skipped) != len(scripts):
+        rep.inconclusive.append("%d of %d scripts produced no result" % (len(scripts) - len(results) - len(skipped), len(scripts)))
+    if skipped:
+        rep.notes.append("NOTE: %d of %d real-time scripts missed their schedule twice and were not judged (%s)" % (len(skipped), len(rt), skipped[0]["skipped"]))
+        if len(skipped) > len(rt) // 2:
+            rep.inconclusive.append("the machine is too loaded for the real-time scripts (%d of %d missed their schedule)" % (len(skipped), len(rt)))
     # vacuity: in every family valid requests must be answered with a token, otherwise nothing was tested
     for f in ("s2s1", "seq", "code", "ovr", "win"):
         if fam.get(f) and fam_clean.get(f, 0) == 0:
@@ -309,18 +331,26 @@ def run(prop, tier, seed, replay=None):
         rep.inconclusive.append("%d of %d valid requests were rejected by the node (harness / code drift)" % (clean_fail, clean_ok + clean_fail))
 
     # ---- 5. recorded traces of the real node are validated by TLC against the specification
-    good = [r for r in results if r.get("trace") and not r.get("error")]
+    # (executions in which the driver itself saw another answer than the model's are drift already: not sent to TLC,
+    #  every rejected trace of a batch costs two more TLC runs)
+    withtrace = [r for r in results if r.get("trace") and not r.get("error")]
+    drifty = [r for r in withtrace if r.get("drift")]
+    good = [r for r in withtrace if not r.get("drift")]
     traces = [r["trace"] for r in good]
-    acc, rej = vlib.validate_traces("TraceOAuth", "OAuth.trace.cfg", traces, timeout=900, batch=1500)
+    acc, rej = vlib.validate_traces("TraceOAuth", "OAuth.trace.cfg", traces, timeout=900, batch=1000)
+    rej = rej + [dict(index=None, event=dict(note=r["drift"][0][:200]), kind="driver-drift", id=r["id"]) for r in drifty]
+    for x in rej:
+        if x["index"] is not None:
+            x["id"] = good[x["index"]]["id"]
     for x in rej[:5]:
-        rep.notes.append("DRIFT: trace %s is not a behaviour of the specification at event %s" % (good[x["index"]]["id"], json.dumps(x["event"])[:300]))
-    if len(rej) > max(3, len(traces) // 20) and not rep.violations:
-        rep.inconclusive.append("%d of %d recorded traces are not behaviours of the specification (spec/code drift)" % (len(rej), len(traces)))
+        rep.notes.append("DRIFT: trace %s is not a behaviour of the specification at event %s" % (x["id"], json.dumps(x["event"])[:300]))
+    if len(rej) > max(3, len(withtrace) // 20) and not rep.violations:
+        rep.inconclusive.append("%d of %d recorded traces are not behaviours of the specification (spec/code drift)" % (len(rej), len(withtrace)))
     # the C02 invariants on the states reconstructed from real executions; the executions the oracle above has
     # already judged as violating are left out (TLC stops at the first violated invariant of a batch)
-    rejected_ids = {good[x["index"]]["id"] for x in rej}
+    rejected_ids = {x["id"] for x in rej}
     calm = [r for r in good if r["id"] not in violating and r["id"] not in rejected_ids]
-    acc2, rej2 = vlib.validate_traces("TraceOAuth", "OAuth.trace.props.cfg", [r["trace"] for r in calm], timeout=900, batch=1500)
+    acc2, rej2 = vlib.validate_traces("TraceOAuth", "OAuth.trace.props.cfg", [r["trace"] for r in calm], timeout=900, batch=1000)
     for x in rej2[:20]:
         r = calm[x["index"]]
         if x["kind"].startswith("invariant:"):
@@ -337,7 +367,7 @@ def run(prop, tier, seed, replay=None):
                behaviours_available={g: len(b) for g, b in behaviours.items()},
                behaviours_replayed_on_real_code=len(results), behaviours_per_family={f: len(b) for f, b in fam.items()},
                requests_judged=nchecks, valid_requests_answered_with_token=clean_ok, valid_requests_rejected=clean_fail,
-               scripts_with_violation=len(violating), drift_notes=ndrift, inconclusive_scripts=nerr,
+               scripts_with_violation=len(violating), realtime_scripts_not_judged=len(skipped), drift_notes=ndrift, inconclusive_scripts=nerr,
                introspection_members_discovered=members, members_not_in_specification=new_members,
                action_coverage=cover, exhaustive=not quick,
                rule="TLC exhausts the prescriptive OAuth model configs listed under 'models' (IssuedOnlyIfClean, OneTokenPerNonce, CodeSingleUse, "
